@@ -20,6 +20,7 @@ META = {
                     "pickle.dump stores the object under the handle's path"],
 }
 META["explanation"] += '  idx-any-tags/*: reference segments with arbitrary BO/NO (inside bubbles, untagged); the index is judged against the sn tags the output carries.'
+META["explanation"] += '  runsort/graph-from-text: the tagged graph is read by the real read_graph from text whose segment carries a Z annotation with blanks.'
 
 
 def harnesses(tier):
@@ -39,6 +40,7 @@ def harnesses(tier):
         hs.append({"id": "idx-any-tags/" + "+".join(m), "params": {"kind": "sort", "paths": m, "scaffold_ref": False}, "timeout": 600})
     hs.append({"id": "idxgz/>s1+>x1", "params": {"kind": "sort", "paths": [">s1", ">x1"], "gz_out": True}, "timeout": 300})
     hs.append({"id": "runsort/default-path", "params": {"kind": "runsort"}, "timeout": 120})
+    hs.append({"id": "runsort/graph-from-text", "params": {"kind": "runsort", "graph_text": True}, "timeout": 300})
     return hs
 
 
@@ -51,9 +53,17 @@ def build(params):
             S = F.M["S"]
             G = F.M["G"]
             e = stubs.env()
-            g = G.GFA()
-            g.nodes["s1"] = F.mk_node("s1", b1, 0)
-            e.graphs["g.gfa"] = lambda low: g
+            if params.get("graph_text"):
+                # the tagged graph is read by the real read_graph from text; one segment carries an annotation with blanks
+                e.files["g.gfa"] = stubs.MFile("text", [
+                    "H\tVN:Z:1.0\n",
+                    # (the tag checker of read_graph matches a regular expression on each tag: BO is a concrete value from a menu here)
+                    "S\ts1\t*\tLN:i:500\tSN:Z:chr1\tSO:i:0\tSR:i:0\tDS:Z:primary assembly, patch 2\tBO:i:%d\tNO:i:0\n" % (0 if b1 == 0 else (5 if b1 == 1 else 300)),
+                    "S\tx9\t*\tLN:i:5\tSN:Z:hapX\tSO:i:0\tSR:i:1\tBO:i:7\tNO:i:1\n", "L\ts1\t+\tx9\t+\t0M\n"], None)
+            else:
+                g = G.GFA()
+                g.nodes["s1"] = F.mk_node("s1", b1, 0)
+                e.graphs["g.gfa"] = lambda low: g
             e.files["in.gaf"] = stubs.MFile("text", F.build_lines([">s1"], [(500, 1, 2)]), [c0, c1])
             res = {}
             for k, (outind, bgz) in enumerate(((None, False), ("custom.idx", False), (None, True), ("custom.idx", True))):
